@@ -39,22 +39,26 @@ of their kind, characters of one grapheme cluster, composite values with as many
 fields, types embedded in type values / capabilities / functions well-scoped):
     decode (prepare v) = .ok (erase v) ∧ prepare (erase v) = prepare v
 and `types_roundtrip`: decodeTypeTop (prepareType t) = .ok t.
-Proved so far: the second conjunct for every value (`reencode_erase`) and the first conjunct for
-scalar values (`roundtrip_partial`); containers, composites and embedded types are covered by the
-correspondence stream only (the Go decoder's answer is compared with `erase v` on every generated
-value).
+Proved: the second conjunct for every value (`reencode_erase`) and the first conjunct for every value
+built from scalars (void, nil, booleans, strings, single-code-point characters, addresses, every
+integer kind within its range, paths) with optionals, arrays, dictionaries, inclusive ranges and
+composite values (struct, resource, event, contract, enum; any declared field types and
+initializers) at any nesting (`roundtrip_partial`).  Missing: fixed-point values, capabilities, type
+values and functions (the embedded types; `types_roundtrip`) — covered by the correspondence stream
+(the Go decoder's answer is compared with `erase v` on every generated value).
 -/
 
-/-- Round trip for scalar values (void, nil, booleans, strings, single-code-point characters,
-addresses, every integer kind within its range, paths): decoding the encoding gives the erased
-value (which is the value itself) and it re-encodes to the same tree. -/
-theorem roundtrip_partial (v : CValue) (h : scalarOk v = true) :
-    decode (prepare v) = .ok (erase v) ∧ prepare (erase v) = prepare v := by
-  rw [erase_scalar v h]; exact ⟨rt_scalar v h, rfl⟩
+/-- Round trip for values built from scalars with optionals, arrays, dictionaries, ranges and
+composite values (`plainOk`): decoding the encoding gives the erased value, and the erased value
+re-encodes to the same tree. -/
+theorem roundtrip_partial (v : CValue) (h : plainOk v = true) :
+    decode (prepare v) = .ok (erase v) ∧ prepare (erase v) = prepare v :=
+  ⟨rt_plain v h, prepare_erase v⟩
 
-example : scalarOk (.int "Int128" (-(2:Int)^127)) = true := by decide
-example : scalarOk (.int "UInt8" 255) = true ∧ scalarOk (.int "UInt8" 256) = false := by decide
-example : scalarOk (.path "storage" "flowTokenVault") = true := by decide
+example : plainOk (.int "Int128" (-(2:Int)^127)) = true := by decide
+example : plainOk (.int "UInt8" 255) = true ∧ plainOk (.int "UInt8" 256) = false := by decide
+example : plainOk (.comp (.comp .struct "A.0000000000000001.C.S" .nil (.cons "xs" (.varr (.prim "Int")) .nil) .nil)
+    (.cons (.arr (.varr (.prim "Int")) (.cons (.some (.int "Int" 5)) .nil)) .nil)) = true := by decide
 
 /-- Decoding is total: the port of the decoder is a terminating function whose every missing or
 ill-typed field is an error value (there is no partiality in the model; the escaping Go panic that
